@@ -130,7 +130,16 @@ def run(ctx):
             par = astx.Parents(q.node)
             loops = par.loops_of(c)
             stm = par.stmt_of(c)
-            if not loops or match(pat("enumerate(self._topology_names)"), loops[0].iter) is None or not isinstance(loops[0].target, ast.Tuple):
+            qsc = Scope(q.node)
+            it0 = loops[0].iter if loops else None
+            src0 = qsc.resolve(it0.args[0]) if isinstance(it0, ast.Call) and txt(it0.func) == "enumerate" and it0.args else None
+            filtered = isinstance(src0, (ast.ListComp, ast.GeneratorExp)) and len(src0.generators) == 1 and txt(src0.generators[0].iter) == "self._topology_names" and src0.generators[0].ifs \
+                or (isinstance(src0, ast.Call) and txt(src0.func) in ("filter", "list") and "self._topology_names" in txt(src0) and "filter" in txt(src0)) \
+                or (isinstance(src0, ast.Subscript) and isinstance(src0.slice, ast.Slice) and txt(src0.value) == "self._topology_names")
+            if loops and filtered and isinstance(loops[0].target, ast.Tuple) and len(c.args) == 2 and txt(c.args[0]) == txt(loops[0].target.elts[0]):
+                o.violated(q, stm, f"the index handed to get_ejk counts positions in `{txt(src0)[:60]}`, a FILTERED / sliced name list: after the first topology that is left out "
+                                   "the index no longer is the topology's column in the joint degree tuples, so the wrong column is decremented", shape_free=True)
+            elif not loops or match(pat("enumerate(self._topology_names)"), loops[0].iter) is None or not isinstance(loops[0].target, ast.Tuple):
                 o.undecided("get_ejk is not called inside `for i, topology in enumerate(self._topology_names)`", q, c)
             else:
                 i, name = (txt(e) for e in loops[0].target.elts)
